@@ -29,15 +29,20 @@ VARIABLES soft, firm,        \* committed rollup numbers
           rpc,               \* log of RPCs: <<"exec", h, parent>> / <<"commit", soft, firm>>
           dead,              \* the executor exited with an error
           injected, last,
-          restarts, phase, nphase, hist
-vars == <<soft, firm, softQ, firmQ, softNext, firmNext, pending, rpc, dead, injected, last, restarts, phase, nphase, hist>>
-View == <<soft, firm, softQ, firmQ, softNext, firmNext, pending, dead, injected, restarts, phase, nphase>>
+          restarts, phase, nphase, hist,
+          base                \* the height executed last before this conductor's first session (0, or 1 when the session starts
+                              \* with a soft commitment ahead of the firm one: the rollup was driven with soft blocks before)
+vars == <<soft, firm, softQ, firmQ, softNext, firmNext, pending, rpc, dead, injected, last, restarts, phase, nphase, hist, base>>
+View == <<soft, firm, softQ, firmQ, softNext, firmNext, pending, dead, injected, restarts, phase, nphase, base>>
 ctl == <<restarts, phase, nphase>>
 
 WithSoft == Mode \in {"SoftOnly", "SoftAndFirm"}
 WithFirm == Mode \in {"FirmOnly", "SoftAndFirm"}
 
-Init == /\ soft = 0 /\ firm = 0 /\ softQ = <<>> /\ firmQ = <<>> /\ softNext = 1 /\ firmNext = 1
+\* execution-session start offsets: the commitments the rollup reports when the session is created (the cache is empty)
+Init == /\ soft \in (IF Batched THEN {0} ELSE {0, 1}) /\ firm = 0 /\ softQ = <<>> /\ firmQ = <<>> /\ softNext = soft + 1 /\ firmNext = 1
+        \* in firm-only mode what counts is the firm chain: soft blocks above it are re-executed as firm ones
+        /\ base = (IF Mode = "FirmOnly" THEN 0 ELSE soft)
         /\ pending = {} /\ rpc = <<>> /\ dead = FALSE /\ injected = 0 /\ last = [op |-> "init"]
         /\ restarts = 0 /\ phase = (IF Batched THEN "load" ELSE "run") /\ nphase = 0 /\ hist = <<>>
 
@@ -126,8 +131,9 @@ Settle == /\ Batched /\ phase = "run" /\ ~ExecEnabled /\ phase' = "load" /\ npha
           /\ last' = [op |-> "env"]
           /\ UNCHANGED <<soft, firm, softQ, firmQ, softNext, firmNext, pending, rpc, dead, injected, restarts>>
 
-Next == ReaderSoft \/ ReaderFirm \/ ExecFirm \/ ExecSoft \/ Restart \/ Go \/ Settle
-        \/ \E h \in H : InjectSoft(h) \/ InjectFirm(h)
+Next == /\ UNCHANGED base
+        /\ \/ ReaderSoft \/ ReaderFirm \/ ExecFirm \/ ExecSoft \/ Restart \/ Go \/ Settle
+           \/ \E h \in H : InjectSoft(h) \/ InjectFirm(h)
 Spec == Init /\ [][Next]_vars
 
 -----------------------------------------------------------------------------
@@ -135,12 +141,13 @@ Spec == Init /\ [][Next]_vars
 Execs == SelectSeq(rpc, LAMBDA r : r[1] = "exec")
 Commits == SelectSeq(rpc, LAMBDA r : r[1] = "commit")
 \* exactly one ExecuteBlock per height, in increasing order, each on top of the previous one
-OncePerHeightInOrder == \A i \in 1..Len(Execs) : Execs[i][2] = i
-ParentChain == \A i \in 1..Len(Execs) : Execs[i][3] = i - 1
+OncePerHeightInOrder == \A i \in 1..Len(Execs) : Execs[i][2] = base + i
+ParentChain == \A i \in 1..Len(Execs) : Execs[i][3] = base + i - 1
 \* commitments never decrease, firm never exceeds soft, firm only names executed heights
 CommitMonotone == \A i \in 1..(Len(Commits) - 1) : Commits[i + 1][2] >= Commits[i][2] /\ Commits[i + 1][3] >= Commits[i][3]
 FirmLeSoft == \A i \in 1..Len(Commits) : Commits[i][3] <= Commits[i][2]
-FirmNamesExecuted == \A i \in 1..Len(Commits) : Commits[i][3] <= Len(Execs) /\ Commits[i][2] <= Len(Execs)
+Top == (IF Mode = "FirmOnly" THEN base ELSE base) + Len(Execs)
+FirmNamesExecuted == \A i \in 1..Len(Commits) : Commits[i][3] <= Top /\ Commits[i][2] <= (IF Mode = "FirmOnly" /\ soft > Top THEN soft ELSE Top)
 \* the cache of soft-executed blocks holds only blocks still awaiting their firm commitment
 PendingWithin == pending \subseteq {h \in H : firm < h /\ h <= soft}
 \* a stale or ahead delivery never reaches the rollup
